@@ -474,3 +474,549 @@ theorem handleBlackSibling_L6 {a : Arena V} (hsize : a.nodes.size ≤ EMPTY) {f 
     by rw [hd4]; simp [a3, a2, a1], by rw [hs4]; simp [a3, a2, a1]⟩
 
 end ITree
+
+namespace ITree
+variable {V : Type}
+
+/-- `handle_black_sibling…`, right, outer nephew black (cases 5 and 6, mirrored) -/
+theorem handleBlackSibling_R5 {a : Arena V} (hsize : a.nodes.size ≤ EMPTY) {f : Frame (Ent V)} {K : Ctx (Ent V)}
+    {tN SL SRL SRR : T (Ent V)} {n s sr : Nat} {se er : Ent V} {cS cr : Color}
+    (hside : f.side = .R) (hsib : f.sib = .node cS SL s se (.node cr SRL sr er SRR)) (hsl : SL.isBlack = true)
+    (hc : RepCtx a (f :: K) n f.s) (hn : Rep a n f.s tN) (hnl : tN ≠ .leaf)
+    (hnd : (tN.slots ++ ctxSlots (f :: K)).Nodup) :
+    ∃ a', a.handleBlackSibling n s = some a' ∧
+      RepCtx a' (⟨.black, f.s, f.e, SRR, .R⟩ :: ⟨f.c, sr, er, .node .black SL s se SRL, .R⟩ :: K) n f.s ∧
+      Rep a' n f.s tN ∧
+      a'.unused = a.unused ∧ a'.cap = a.cap ∧ a'.dflt = a.dflt ∧ a'.nodes.size = a.nodes.size := by
+  have hnidx := hn.idx
+  obtain ⟨hnmem, nn, hnn, hnnp⟩ := hn.node_mem hnl
+  obtain ⟨pp, hT, hK⟩ := Rep.fill hc hn
+  simp only [Frame.fill, hside, hsib] at hT
+  rw [show ctxSlots (f :: K) = f.s :: ((T.node cS SL s se (.node cr SRL sr er SRR)).slots ++ ctxSlots K) by
+    simp [ctxSlots, hsib]] at hnd
+  have hT0 := hT
+  obtain ⟨_, pn, hpn, hpp, hpr, hpe, hlS, hr⟩ := hT0
+  have hlS0 := hlS
+  obtain ⟨hsi, sn, hsn, _, _, _, hSL, hSR⟩ := hlS0
+  have hsrb := hSR.isBlack hsize
+  have hslb : a.isBlack sn.left = some true := by rw [hSL.isBlack hsize, hsl]
+  obtain ⟨hsri, srn, hsrn, _⟩ := hSR
+  have hprt : pn.right = n := by rw [hr.idx, hnidx]
+  have hsrlt := node_lt hsrn
+  have hslt := node_lt hsn
+  have hplt := node_lt hpn
+  have hsrne : (sn.right != EMPTY) = true := by rw [hsri]; simp; omega
+  have hns : n ≠ s := by
+    intro h; rw [h] at hnmem; revert hnmem; slots_tac hnd
+  have hnl' : (n == pn.left) = false := by rw [hsi]; simpa using hns
+  -- focus on the sibling
+  obtain ⟨i, hcS, hrS'⟩ := Rep.down_left hK hT
+  have hi : i = s := hrS'.1
+  subst hi
+  have hndS : ((T.node cS SL i se (.node cr SRL sr er SRR)).slots ++
+      ctxSlots ((⟨f.c, f.s, f.e, tN, .L⟩ : Frame (Ent V)) :: K)).Nodup := by slots_tac hnd
+  let a1 := a.upd sr fun m => { m with red := false }
+  let a2 := a1.upd i fun m => { m with red := true }
+  have hS1 : Rep a1 i f.s (.node cS SL i se (.node .black SRL sr er SRR)) :=
+    Rep.setRed_right hrS' (List.nodup_append.mp hndS).1 rfl
+  have hcS1 : RepCtx a1 ((⟨f.c, f.s, f.e, tN, .L⟩ : Frame (Ent V)) :: K) i f.s := hcS.upd_other _ (by slots_tac hnd)
+  have hS2 : Rep a2 i f.s (.node .red SL i se (.node .black SRL sr er SRR)) :=
+    Rep.setRed_root hS1 (by slots_tac hnd) rfl
+  have hcS2 : RepCtx a2 ((⟨f.c, f.s, f.e, tN, .L⟩ : Frame (Ent V)) :: K) i f.s := hcS1.upd_other _ (by slots_tac hnd)
+  obtain ⟨a3, hr3, hcS3, hS3, _, _, hu3, hc3, hd3, hs3⟩ :=
+    rotateLeft_rep (a := a2) (by simpa [a2, a1] using hsize) hcS2 hS2 (by slots_tac hnd)
+  -- back to the parent
+  obtain ⟨pp3, hT3', hK3⟩ := Rep.fill hcS3 hS3
+  have hT3 : Rep a3 f.s pp3 (.node f.c (.node .black (.node .red SL i se SRL) sr er SRR) f.s f.e tN) := hT3'
+  have hT30 := hT3
+  obtain ⟨_, pn3, hpn3, _, hpr3, _, hlS3, _⟩ := hT30
+  obtain ⟨hsr3, sn3, hsn3, _, _, _, hS3l, _⟩ := hlS3
+  have hs3l : sn3.left = i := hS3l.1
+  have hsize3 : a3.nodes.size ≤ EMPTY := by rw [hs3]; simpa [a2, a1] using hsize
+  have h3lt : ∀ x, x < a.nodes.size → x < a3.nodes.size := by intro x hx; rw [hs3]; simpa [a2, a1] using hx
+  let a4 := a3.upd sr fun m => { m with red := pn3.red }
+  let a5 := a4.upd f.s fun m => { m with red := false }
+  let a6 := a5.upd i fun m => { m with red := false }
+  have hndT3 : ((T.node f.c (.node .black (.node .red SL i se SRL) sr er SRR) f.s f.e tN).slots ++ ctxSlots K).Nodup := by
+    slots_tac hnd
+  have hT4 : Rep a4 f.s pp3 (.node f.c (.node f.c (.node .red SL i se SRL) sr er SRR) f.s f.e tN) :=
+    Rep.setRed_left hT3 (List.nodup_append.mp hndT3).1 hpr3
+  have hT5 : Rep a5 f.s pp3 (.node .black (.node f.c (.node .red SL i se SRL) sr er SRR) f.s f.e tN) :=
+    Rep.setRed_root hT4 (by slots_tac hnd) rfl
+  have hT6 : Rep a6 f.s pp3 (.node .black (.node f.c (.node .black SL i se SRL) sr er SRR) f.s f.e tN) :=
+    Rep.setRed_ll hT5 (by slots_tac hnd) rfl
+  have hK6 : RepCtx a6 K f.s pp3 :=
+    ((hK3.upd_other _ (by slots_tac hnd)).upd_other _ (by slots_tac hnd)).upd_other _ (by slots_tac hnd)
+  obtain ⟨a7, hr7, hK7, hT7, _, _, hu7, hc7, hd7, hs7⟩ :=
+    rotateRight_rep (a := a6) (by simpa [a6, a5, a4] using hsize3) hK6 hT6 (by slots_tac hnd)
+  obtain ⟨j, hc8, hr8⟩ := Rep.down_right hK7 hT7
+  have hj : j = f.s := hr8.1
+  subst hj
+  obtain ⟨j2, hc9, hr9⟩ := Rep.down_right hc8 hr8
+  have hj2 : j2 = n := by rw [hr9.idx, hnidx]
+  subst hj2
+  have hcode : a.handleBlackSibling j2 i = a6.rotateRight f.s := by
+    simp only [Arena.handleBlackSibling, Option.bind_eq_bind, Option.pure_def, Option.bind_some, hnn, hsn, hnnp, hpn,
+      hsrb, hslb, hnl', Bool.false_and, Bool.false_eq_true, if_false, Bool.not_false, Bool.true_and, if_true, hsrne]
+    rw [hsri, Arena.setRed_eq _ hsrlt]
+    simp only [Option.bind_some]
+    rw [Arena.setRed_eq _ (by simpa using hslt)]
+    simp only [Option.bind_some]
+    have : a2.rotateLeft i = some a3 := hr3
+    simp only [a2, a1] at this
+    rw [this]
+    simp only [Option.bind_some, hpn3, hsr3, hsn3, hs3l]
+    rw [Arena.setRed_eq _ (h3lt _ hsrlt)]
+    simp only [Option.bind_some]
+    rw [Arena.setRed_eq _ (by simpa using h3lt _ hplt)]
+    simp only [Option.bind_some]
+    have hine : (i != EMPTY) = true := by simp; omega
+    simp only [hine, if_true]
+    rw [Arena.setRed_eq _ (by simpa using h3lt _ hslt)]
+    simp only [Option.bind_some, a6, a5, a4]
+  refine ⟨a7, by rw [hcode]; exact hr7, hc9, hr9, ?_, ?_, ?_, ?_⟩
+  · rw [hu7]; simp only [a6, a5, a4, Arena.unused_upd]; rw [hu3]; simp [a2, a1]
+  · rw [hc7]; simp only [a6, a5, a4, Arena.cap_upd]; rw [hc3]; simp [a2, a1]
+  · rw [hd7]; simp only [a6, a5, a4, Arena.dflt_upd]; rw [hd3]; simp [a2, a1]
+  · rw [hs7]; simp only [a6, a5, a4, Arena.size_upd]; rw [hs3]; simp [a2, a1]
+
+/-- `handle_black_sibling…`, right, outer nephew red (case 6 only, mirrored) -/
+theorem handleBlackSibling_R6 {a : Arena V} (hsize : a.nodes.size ≤ EMPTY) {f : Frame (Ent V)} {K : Ctx (Ent V)}
+    {tN SLL SLR SR : T (Ent V)} {n s sl : Nat} {se el : Ent V} {cS : Color}
+    (hside : f.side = .R) (hsib : f.sib = .node cS (.node .red SLL sl el SLR) s se SR)
+    (hc : RepCtx a (f :: K) n f.s) (hn : Rep a n f.s tN) (hnl : tN ≠ .leaf)
+    (hnd : (tN.slots ++ ctxSlots (f :: K)).Nodup) :
+    ∃ a', a.handleBlackSibling n s = some a' ∧
+      RepCtx a' (⟨.black, f.s, f.e, SR, .R⟩ :: ⟨f.c, s, se, .node .black SLL sl el SLR, .R⟩ :: K) n f.s ∧
+      Rep a' n f.s tN ∧
+      a'.unused = a.unused ∧ a'.cap = a.cap ∧ a'.dflt = a.dflt ∧ a'.nodes.size = a.nodes.size := by
+  have hnidx := hn.idx
+  obtain ⟨hnmem, nn, hnn, hnnp⟩ := hn.node_mem hnl
+  obtain ⟨pp, hT, hK⟩ := Rep.fill hc hn
+  simp only [Frame.fill, hside, hsib] at hT
+  rw [show ctxSlots (f :: K) = f.s :: ((T.node cS (.node .red SLL sl el SLR) s se SR).slots ++ ctxSlots K) by
+    simp [ctxSlots, hsib]] at hnd
+  have hT0 := hT
+  obtain ⟨_, pn, hpn, hpp, hpr, hpe, hlS, hr⟩ := hT0
+  obtain ⟨hsi, sn, hsn, _, _, _, hSL, hSR⟩ := hlS
+  have hsrb := hSR.isBlack hsize
+  have hslb : a.isBlack sn.left = some false := by rw [hSL.isBlack hsize]; rfl
+  obtain ⟨hsli, sln, hsln, _⟩ := hSL
+  have hprt : pn.right = n := by rw [hr.idx, hnidx]
+  have hsllt := node_lt hsln
+  have hslt := node_lt hsn
+  have hplt := node_lt hpn
+  have hslne : (sn.left != EMPTY) = true := by rw [hsli]; simp; omega
+  have hns : n ≠ s := by
+    intro h; rw [h] at hnmem; revert hnmem; slots_tac hnd
+  have hnl' : (n == pn.left) = false := by rw [hsi]; simpa using hns
+  let a1 := a.upd s fun m => { m with red := pn.red }
+  let a2 := a1.upd f.s fun m => { m with red := false }
+  let a3 := a2.upd sl fun m => { m with red := false }
+  have hndT : ((T.node f.c (.node cS (.node .red SLL sl el SLR) s se SR) f.s f.e tN).slots ++ ctxSlots K).Nodup := by
+    slots_tac hnd
+  have hT1 : Rep a1 f.s pp (.node f.c (.node f.c (.node .red SLL sl el SLR) s se SR) f.s f.e tN) :=
+    Rep.setRed_left hT (List.nodup_append.mp hndT).1 hpr
+  have hT2 : Rep a2 f.s pp (.node .black (.node f.c (.node .red SLL sl el SLR) s se SR) f.s f.e tN) :=
+    Rep.setRed_root hT1 (by slots_tac hnd) rfl
+  have hT3 : Rep a3 f.s pp (.node .black (.node f.c (.node .black SLL sl el SLR) s se SR) f.s f.e tN) :=
+    Rep.setRed_ll hT2 (by slots_tac hnd) rfl
+  have hK3 : RepCtx a3 K f.s pp :=
+    ((hK.upd_other _ (by slots_tac hnd)).upd_other _ (by slots_tac hnd)).upd_other _ (by slots_tac hnd)
+  obtain ⟨a4, hr4, hK4, hT4, _, _, hu4, hc4, hd4, hs4⟩ :=
+    rotateRight_rep (a := a3) (by simpa [a3, a2, a1] using hsize) hK3 hT3 (by slots_tac hnd)
+  obtain ⟨j, hc5, hr5⟩ := Rep.down_right hK4 hT4
+  have hj : j = f.s := hr5.1
+  subst hj
+  obtain ⟨j2, hc6, hr6⟩ := Rep.down_right hc5 hr5
+  have hj2 : j2 = n := by rw [hr6.idx, hnidx]
+  subst hj2
+  have hcode : a.handleBlackSibling j2 s = a3.rotateRight f.s := by
+    simp only [Arena.handleBlackSibling, Option.bind_eq_bind, Option.pure_def, Option.bind_some, hnn, hsn, hnnp, hpn,
+      hsrb, hslb, hnl', Bool.false_and, Bool.false_eq_true, if_false, Bool.not_false, Bool.and_false, if_true, hslne]
+    rw [Arena.setRed_eq _ hslt]
+    simp only [Option.bind_some]
+    rw [Arena.setRed_eq _ (by simpa using hplt)]
+    simp only [Option.bind_some]
+    rw [hsli, Arena.setRed_eq _ (by simpa using hsllt)]
+    simp only [Option.bind_some, a3, a2, a1]
+  exact ⟨a4, by rw [hcode]; exact hr4, hc6, hr6, by rw [hu4]; simp [a3, a2, a1], by rw [hc4]; simp [a3, a2, a1],
+    by rw [hd4]; simp [a3, a2, a1], by rw [hs4]; simp [a3, a2, a1]⟩
+
+end ITree
+
+namespace ITree
+variable {V : Type}
+
+/-- the statement proved by induction on the fuel -/
+def FixDeleteSpec (fuel : Nat) : Prop :=
+  ∀ (a : Arena V) (k : Ctx (Ent V)) (tN : T (Ent V)) (n p : Nat),
+    a.nodes.size ≤ EMPTY → k.length < fuel → RepCtx a k n p → Rep a n p tN → tN ≠ .leaf →
+    (tN.slots ++ ctxSlots k).Nodup →
+    ∀ k' d', fixUpD k true = some (k', d') →
+    ∃ a', Arena.fixDelete fuel a n = some a' ∧ RepCtx a' k' n p ∧ Rep a' n p tN ∧
+      a'.unused = a.unused ∧ a'.cap = a.cap ∧ a'.dflt = a.dflt ∧ a'.nodes.size = a.nodes.size
+
+theorem T.isBlack_red (l : T (Ent V)) (s : Nat) (e : Ent V) (r : T (Ent V)) :
+    (T.node .red l s e r).isBlack = false := rfl
+
+theorem T.not_black_red {t : T (Ent V)} (h : t.isBlack = false) : ∃ l s e r, t = .node .red l s e r := by
+  cases t with
+  | leaf => simp [T.isBlack] at h
+  | node c l s e r =>
+    cases c with
+    | red => exact ⟨l, s, e, r, rfl⟩
+    | black => simp [T.isBlack] at h
+
+/-- the repair with a black sibling (cases 3–6), continuing upwards through `K` when the deficit persists -/
+theorem fixTail_rep {fuel : Nat} (ih : FixDeleteSpec (V := V) fuel) {a : Arena V} (hsize : a.nodes.size ≤ EMPTY)
+    {f : Frame (Ent V)} {K : Ctx (Ent V)} {tN SL SR : T (Ent V)} {n s : Nat} {se : Ent V} {cS : Color}
+    (hfuel : f.c = .black → K.length < fuel)
+    (hsib : f.sib = .node cS SL s se SR)
+    (hc : RepCtx a (f :: K) n f.s) (hn : Rep a n f.s tN) (hnl : tN ≠ .leaf)
+    (hnd : (tN.slots ++ ctxSlots (f :: K)).Nodup)
+    {fs : Ctx (Ent V)} {d : Bool} (hm : fixBlackSib f = some (fs, d))
+    {r : Ctx (Ent V)} {d' : Bool} (hr : fixUpD K d = some (r, d')) :
+    ∃ a', Arena.fixTail fuel a n s = some a' ∧ RepCtx a' (fs ++ r) n f.s ∧ Rep a' n f.s tN ∧
+      a'.unused = a.unused ∧ a'.cap = a.cap ∧ a'.dflt = a.dflt ∧ a'.nodes.size = a.nodes.size := by
+  have hnidx := hn.idx
+  obtain ⟨hnmem, nn, hnn, hnnp⟩ := hn.node_mem hnl
+  obtain ⟨pp, hT, hK⟩ := Rep.fill hc hn
+  have hctx0 := hc
+  obtain ⟨_, pn, hpn, hpr, hpe, hpside, _⟩ := hctx0
+  have hS : Rep a s f.s (.node cS SL s se SR) := by
+    cases hs : f.side with
+    | L => simp only [hs] at hpside; rw [hsib] at hpside; have := hpside.2; rwa [this.1] at this
+    | R => simp only [hs] at hpside; rw [hsib] at hpside; have := hpside.2; rwa [this.1] at this
+  have hS0 := hS
+  obtain ⟨_, sn, hsn, _, _, _, hSL, hSR⟩ := hS0
+  have hslb := hSL.isBlack hsize
+  have hsrb := hSR.isBlack hsize
+  have hslt := node_lt hsn
+  have hplt := node_lt hpn
+  have hnd0 := hnd
+  rw [show ctxSlots (f :: K) = f.s :: ((T.node cS SL s se SR).slots ++ ctxSlots K) by simp [ctxSlots, hsib]] at hnd
+  have hns : n ≠ s := by intro h; rw [h] at hnmem; revert hnmem; slots_tac hnd
+  have hps : f.s ≠ s := by slots_tac hnd
+  have hnp' : n ≠ f.s := by intro h; rw [h] at hnmem; revert hnmem; slots_tac hnd
+  by_cases hbb : (SL.isBlack && SR.isBlack) = true
+  · -- cases 3 + 4: recolour the sibling red
+    simp only [fixBlackSib, hsib, hbb, if_true, Option.some.injEq, Prod.mk.injEq] at hm
+    obtain ⟨rfl, rfl⟩ := hm
+    let a1 := a.upd s fun m => { m with red := true }
+    have h1n : a1.node n = some nn := by simp [a1, Ne.symm hns, hnn]
+    have h1p : a1.node f.s = some pn := by simp [a1, Ne.symm hps, hpn]
+    have hK1 : RepCtx a1 K f.s pp := hK.upd_other _ (by slots_tac hnd)
+    have hcode : Arena.fixTail fuel a n s =
+        (if pn.red then a1.setRed f.s false else Arena.fixDelete fuel a1 f.s) := by
+      simp only [Arena.fixTail, hsn, Option.bind_eq_bind, Option.bind_some, hslb, hsrb, hbb, if_true]
+      rw [Arena.setRed_eq _ hslt]
+      simp only [a1] at h1n h1p
+      simp only [Option.bind_some, h1n, hnnp, h1p, a1]
+    -- the subtree at p with the recoloured sibling
+    have hT1 : Rep a1 f.s pp (Frame.fill { f with sib := .node .red SL s se SR } tN) := by
+      cases hs : f.side with
+      | L =>
+        simp only [Frame.fill, hs, hsib] at hT ⊢
+        exact Rep.setRed_right hT (by slots_tac hnd) rfl
+      | R =>
+        simp only [Frame.fill, hs, hsib] at hT ⊢
+        exact Rep.setRed_left hT (by slots_tac hnd) rfl
+    rw [hcode]
+    by_cases hred : f.c = .red
+    · have hpred : pn.red = true := by rw [hpr, hred]; rfl
+      have hd : (f.c == Color.black) = false := by rw [hred]; rfl
+      rw [hd, fixUpD_false] at hr
+      simp only [Option.some.injEq, Prod.mk.injEq] at hr
+      obtain ⟨rfl, rfl⟩ := hr
+      simp only [hpred, if_true]
+      let a2 := a1.upd f.s fun m => { m with red := false }
+      have hK2 : RepCtx a2 K f.s pp := hK1.upd_other _ (by slots_tac hnd)
+      have hT2 : Rep a2 f.s pp (Frame.fill { f with c := .black, sib := .node .red SL s se SR } tN) := by
+        cases hs : f.side with
+        | L =>
+          simp only [Frame.fill, hs] at hT1 ⊢
+          exact Rep.setRed_root hT1 (by slots_tac hnd) rfl
+        | R =>
+          simp only [Frame.fill, hs] at hT1 ⊢
+          exact Rep.setRed_root hT1 (by slots_tac hnd) rfl
+      refine ⟨a2, Arena.setRed_eq _ (by simpa [a1] using hplt), ?_, ?_, by simp [a2, a1], by simp [a2, a1],
+        by simp [a2, a1], by simp [a2, a1]⟩
+      · cases hs : f.side with
+        | L =>
+          simp only [Frame.fill, hs] at hT2
+          obtain ⟨j, hcj, hrj⟩ := Rep.down_left hK2 hT2
+          have : j = n := by rw [hrj.idx, hnidx]
+          subst this
+          have hfe : ({ f with c := .black, sib := .node .red SL s se SR } : Frame (Ent V)) =
+              ⟨.black, f.s, f.e, .node .red SL s se SR, .L⟩ := by cases f; simp_all
+          simpa [hfe] using hcj
+        | R =>
+          simp only [Frame.fill, hs] at hT2
+          obtain ⟨j, hcj, hrj⟩ := Rep.down_right hK2 hT2
+          have : j = n := by rw [hrj.idx, hnidx]
+          subst this
+          have hfe : ({ f with c := .black, sib := .node .red SL s se SR } : Frame (Ent V)) =
+              ⟨.black, f.s, f.e, .node .red SL s se SR, .R⟩ := by cases f; simp_all
+          simpa [hfe] using hcj
+      · cases hs : f.side with
+        | L =>
+          simp only [Frame.fill, hs] at hT2
+          obtain ⟨j, _, hrj⟩ := Rep.down_left hK2 hT2
+          have : j = n := by rw [hrj.idx, hnidx]
+          subst this; exact hrj
+        | R =>
+          simp only [Frame.fill, hs] at hT2
+          obtain ⟨j, _, hrj⟩ := Rep.down_right hK2 hT2
+          have : j = n := by rw [hrj.idx, hnidx]
+          subst this; exact hrj
+    · -- black parent: the deficit moves up
+      have hblack : f.c = .black := by cases hc' : f.c <;> simp_all
+      have hpred : pn.red = false := by rw [hpr, hblack]; rfl
+      have hd : (f.c == Color.black) = true := by rw [hblack]; rfl
+      rw [hd] at hr
+      simp only [hpred, Bool.false_eq_true, if_false]
+      have hfe : ({ f with c := .black, sib := .node .red SL s se SR } : Frame (Ent V)) =
+          { f with sib := .node .red SL s se SR } := by cases f; simp_all
+      have hnd1 : ((Frame.fill { f with sib := .node .red SL s se SR } tN).slots ++ ctxSlots K).Nodup := by
+        cases hs : f.side with
+        | L => simp only [Frame.fill, hs]; slots_tac hnd
+        | R => simp only [Frame.fill, hs]; slots_tac hnd
+      obtain ⟨a', h1, h2, h3, h4, h5, h6, h7⟩ := ih a1 K _ f.s pp (by simpa [a1] using hsize) (hfuel hblack) hK1 hT1
+        (fill_ne_leaf _ _) hnd1 r d' hr
+      refine ⟨a', h1, ?_, ?_, by rw [h4]; simp [a1], by rw [h5]; simp [a1], by rw [h6]; simp [a1], by rw [h7]; simp [a1]⟩
+      · rw [hfe]
+        cases hs : f.side with
+        | L =>
+          simp only [Frame.fill, hs] at h3
+          obtain ⟨j, hcj, hrj⟩ := Rep.down_left h2 h3
+          have : j = n := by rw [hrj.idx, hnidx]
+          subst this
+          have hfe2 : ({ f with sib := .node .red SL s se SR } : Frame (Ent V)) =
+              ⟨f.c, f.s, f.e, .node .red SL s se SR, .L⟩ := by cases f; simp_all
+          simpa [hfe2] using hcj
+        | R =>
+          simp only [Frame.fill, hs] at h3
+          obtain ⟨j, hcj, hrj⟩ := Rep.down_right h2 h3
+          have : j = n := by rw [hrj.idx, hnidx]
+          subst this
+          have hfe2 : ({ f with sib := .node .red SL s se SR } : Frame (Ent V)) =
+              ⟨f.c, f.s, f.e, .node .red SL s se SR, .R⟩ := by cases f; simp_all
+          simpa [hfe2] using hcj
+      · cases hs : f.side with
+        | L =>
+          simp only [Frame.fill, hs] at h3
+          obtain ⟨j, _, hrj⟩ := Rep.down_left h2 h3
+          have : j = n := by rw [hrj.idx, hnidx]
+          subst this; exact hrj
+        | R =>
+          simp only [Frame.fill, hs] at h3
+          obtain ⟨j, _, hrj⟩ := Rep.down_right h2 h3
+          have : j = n := by rw [hrj.idx, hnidx]
+          subst this; exact hrj
+  · -- cases 5 / 6: a red nephew
+    have hbb' : (SL.isBlack && SR.isBlack) = false := by simpa using hbb
+    have hcode : Arena.fixTail fuel a n s = a.handleBlackSibling n s := by
+      simp only [Arena.fixTail, hsn, Option.bind_eq_bind, Option.bind_some, hslb, hsrb, hbb', Bool.false_eq_true,
+        if_false]
+    rw [hcode]
+    cases hs : f.side with
+    | L =>
+      by_cases hsrB : SR.isBlack = true
+      · have hslB : SL.isBlack = false := by cases h : SL.isBlack <;> simp_all
+        obtain ⟨SLL, sl, el, SLR, rfl⟩ := T.not_black_red hslB
+        simp only [fixBlackSib, hsib, hs, hsrB, T.isBlack_red, Bool.and_true, Bool.false_and, Bool.and_false, beq_iff_eq,
+          reduceCtorEq, Bool.false_eq_true, if_false, if_true, Option.some.injEq, Prod.mk.injEq] at hm
+        obtain ⟨rfl, rfl⟩ := hm
+        rw [fixUpD_false] at hr
+        simp only [Option.some.injEq, Prod.mk.injEq] at hr
+        obtain ⟨rfl, rfl⟩ := hr
+        obtain ⟨a', h1, h2, h3, h4⟩ := handleBlackSibling_L5 hsize hs hsib hsrB hc hn hnl hnd0
+        have hfe : ({ f with c := .black, sib := SLL } : Frame (Ent V)) = ⟨.black, f.s, f.e, SLL, .L⟩ := by
+          cases f; simp_all
+        exact ⟨a', h1, by simpa [hfe] using h2, h3, h4⟩
+      · have hsrB' : SR.isBlack = false := by simpa using hsrB
+        obtain ⟨SRL, sr, er, SRR, rfl⟩ := T.not_black_red hsrB'
+        simp only [fixBlackSib, hsib, hs, T.isBlack_red, Bool.and_true, Bool.false_and, Bool.and_false, beq_iff_eq,
+          reduceCtorEq, Bool.false_eq_true, if_false, Option.some.injEq, Prod.mk.injEq, T.setColor] at hm
+        obtain ⟨rfl, rfl⟩ := hm
+        rw [fixUpD_false] at hr
+        simp only [Option.some.injEq, Prod.mk.injEq] at hr
+        obtain ⟨rfl, rfl⟩ := hr
+        obtain ⟨a', h1, h2, h3, h4⟩ := handleBlackSibling_L6 hsize hs hsib hc hn hnl hnd0
+        have hfe : ({ f with c := .black, sib := SL } : Frame (Ent V)) = ⟨.black, f.s, f.e, SL, .L⟩ := by
+          cases f; simp_all
+        exact ⟨a', h1, by simpa [hfe] using h2, h3, h4⟩
+    | R =>
+      by_cases hslB : SL.isBlack = true
+      · have hsrB : SR.isBlack = false := by cases h : SR.isBlack <;> simp_all
+        obtain ⟨SRL, sr, er, SRR, rfl⟩ := T.not_black_red hsrB
+        simp only [fixBlackSib, hsib, hs, hslB, T.isBlack_red, Bool.and_true, Bool.true_and, Bool.false_and, Bool.and_false,
+          beq_iff_eq, reduceCtorEq, Bool.false_eq_true, if_false, if_true, Option.some.injEq, Prod.mk.injEq] at hm
+        obtain ⟨rfl, rfl⟩ := hm
+        rw [fixUpD_false] at hr
+        simp only [Option.some.injEq, Prod.mk.injEq] at hr
+        obtain ⟨rfl, rfl⟩ := hr
+        obtain ⟨a', h1, h2, h3, h4⟩ := handleBlackSibling_R5 hsize hs hsib hslB hc hn hnl hnd0
+        have hfe : ({ f with c := .black, sib := SRR } : Frame (Ent V)) = ⟨.black, f.s, f.e, SRR, .R⟩ := by
+          cases f; simp_all
+        exact ⟨a', h1, by simpa [hfe] using h2, h3, h4⟩
+      · have hslB' : SL.isBlack = false := by simpa using hslB
+        obtain ⟨SLL, sl, el, SLR, rfl⟩ := T.not_black_red hslB'
+        simp only [fixBlackSib, hsib, hs, T.isBlack_red, Bool.and_true, Bool.false_and, Bool.and_false, beq_iff_eq,
+          reduceCtorEq, Bool.false_eq_true, if_false, Option.some.injEq, Prod.mk.injEq, T.setColor] at hm
+        obtain ⟨rfl, rfl⟩ := hm
+        rw [fixUpD_false] at hr
+        simp only [Option.some.injEq, Prod.mk.injEq] at hr
+        obtain ⟨rfl, rfl⟩ := hr
+        obtain ⟨a', h1, h2, h3, h4⟩ := handleBlackSibling_R6 hsize hs hsib hc hn hnl hnd0
+        have hfe : ({ f with c := .black, sib := SR } : Frame (Ent V)) = ⟨.black, f.s, f.e, SR, .R⟩ := by
+          cases f; simp_all
+        exact ⟨a', h1, by simpa [hfe] using h2, h3, h4⟩
+
+theorem fixBlackSib_red_parent {f : Frame (Ent V)} {fs : Ctx (Ent V)} {d : Bool}
+    (h : fixBlackSib f = some (fs, d)) (hc : f.c = .red) : d = false := by
+  simp only [fixBlackSib] at h
+  split at h
+  · simp at h
+  · split at h
+    · simp only [Option.some.injEq, Prod.mk.injEq] at h; rw [← h.2, hc]; rfl
+    · split at h
+      · split at h
+        · split at h
+          · simp only [Option.some.injEq, Prod.mk.injEq] at h; exact h.2.symm
+          · simp at h
+        · simp only [Option.some.injEq, Prod.mk.injEq] at h; exact h.2.symm
+      · split at h
+        · split at h
+          · simp only [Option.some.injEq, Prod.mk.injEq] at h; exact h.2.symm
+          · simp at h
+        · simp only [Option.some.injEq, Prod.mk.injEq] at h; exact h.2.symm
+
+/-- **`fix_red_black_properties_after_delete`** on the arena realises `fixUpD` of the zipper model, for every
+context, tree shape and deficit position; it never indexes outside the arena -/
+theorem fixDelete_rep : ∀ fuel, FixDeleteSpec (V := V) fuel := by
+  intro fuel
+  induction fuel with
+  | zero => intro a k tN n p _ h; omega
+  | succ fuel ih =>
+    intro a k tN n p hsize hfuel hc hn hnl hnd k' d' hm
+    cases k with
+    | nil =>
+      simp only [fixUpD, Option.some.injEq, Prod.mk.injEq] at hm
+      obtain ⟨rfl, rfl⟩ := hm
+      have hroot := hc.2
+      refine ⟨a, ?_, hc, hn, rfl, rfl, rfl, rfl⟩
+      rw [fixDelete_eq]; simp [hroot]
+    | cons f K =>
+      have hp : p = f.s := hc.1
+      subst hp
+      obtain ⟨hnmem, _⟩ := hn.node_mem hnl
+      have hroot : (n == a.root) = false := by
+        have h1 := hc.root_mem (by simp)
+        have : n ≠ a.root := by
+          intro h; rw [← h] at h1
+          exact (List.nodup_append.mp hnd).2.2 n hnmem n h1 rfl
+        simpa using this
+      obtain ⟨s, nn, pn, hnn, hnp, hpn, hgs, hS, hnl', hpr⟩ := getSibling_rep hsize hc hn hnl hnd
+      simp only [fixUpD] at hm
+      cases hff : fixFrame f with
+      | none => simp [hff] at hm
+      | some x =>
+      obtain ⟨fs, d⟩ := x
+      simp only [hff] at hm
+      cases hr : fixUpD K d with
+      | none => simp [hr] at hm
+      | some y =>
+      obtain ⟨r, d2⟩ := y
+      simp only [hr, Option.map_some, Option.some.injEq, Prod.mk.injEq] at hm
+      obtain ⟨rfl, rfl⟩ := hm
+      cases hsib : f.sib with
+      | leaf => simp [fixFrame, fixBlackSib, hsib] at hff
+      | node cS SL s' se SR =>
+      rw [hsib] at hS
+      have hss : s = s' := hS.1
+      subst hss
+      have hS0 := hS
+      obtain ⟨_, sn, hsn, _, hsr, _⟩ := hS0
+      rw [fixDelete_eq]
+      simp only [hroot, Bool.false_eq_true, if_false, hgs, Option.bind_some, hsn]
+      have hKlen : K.length < fuel := by simp at hfuel; omega
+      cases cS with
+      | black =>
+        have hsred : sn.red = false := by rw [hsr]; rfl
+        simp only [hsred, Bool.false_eq_true, if_false]
+        have hff' : fixBlackSib f = some (fs, d) := by simpa [fixFrame, hsib] using hff
+        exact fixTail_rep ih hsize (fun _ => hKlen) hsib hc hn hnl hnd hff' hr
+      | red =>
+        have hsred : sn.red = true := by rw [hsr]; rfl
+        simp only [hsred, if_true]
+        cases hs : f.side with
+        | L =>
+          simp only [fixFrame, hsib, hs] at hff
+          cases hb : fixBlackSib (⟨.red, f.s, f.e, SL, .L⟩ : Frame (Ent V)) with
+          | none => rw [hb] at hff; simp at hff
+          | some z =>
+          obtain ⟨fs0, d0⟩ := z
+          rw [hb] at hff
+          simp only [Option.map_some, Option.some.injEq, Prod.mk.injEq] at hff
+          obtain ⟨rfl, rfl⟩ := hff
+          rw [fixUpD_false] at hr
+          simp only [Option.some.injEq, Prod.mk.injEq] at hr
+          obtain ⟨rfl, rfl⟩ := hr
+          have hd0 : d0 = false := fixBlackSib_red_parent hb rfl
+          subst hd0
+          obtain ⟨a1, h1, hc1, hn1, hu1, hcap1, hd1, hs1⟩ := handleRedSibling_L hsize hs hsib hc hn hnl hnd
+          have hsize1 : a1.nodes.size ≤ EMPTY := by rw [hs1]; exact hsize
+          have hnd1 : (tN.slots ++ ctxSlots ((⟨.red, f.s, f.e, SL, .L⟩ : Frame (Ent V)) :: ⟨.black, s, se, SR, .L⟩ :: K)).Nodup := by
+            rw [show ctxSlots (f :: K) = f.s :: ((T.node .red SL s se SR).slots ++ ctxSlots K) by simp [ctxSlots, hsib]] at hnd
+            slots_tac hnd
+          obtain ⟨s1, _, _, _, _, _, hgs1, hS1, _, _⟩ :=
+            getSibling_rep (f := ⟨.red, f.s, f.e, SL, .L⟩) hsize1 hc1 hn1 hnl hnd1
+          cases hSL : SL with
+          | leaf => simp [fixBlackSib, hSL] at hb
+          | node cS1 SL1 s1' se1 SR1 =>
+          subst hSL
+          have hs1' : s1 = s1' := hS1.1
+          subst hs1'
+          obtain ⟨a', h2, hc2, hn2, hu2, hcap2, hd2, hs2⟩ :=
+            fixTail_rep (f := ⟨.red, f.s, f.e, _, .L⟩) ih hsize1 (fun h => by cases h) rfl hc1 hn1 hnl hnd1 hb
+              (fixUpD_false _)
+          refine ⟨a', ?_, by simpa using hc2, hn2, by rw [hu2, hu1], by rw [hcap2, hcap1], by rw [hd2, hd1], by rw [hs2, hs1]⟩
+          simp only [h1, Option.bind_some, hgs1]
+          exact h2
+        | R =>
+          simp only [fixFrame, hsib, hs] at hff
+          cases hb : fixBlackSib (⟨.red, f.s, f.e, SR, .R⟩ : Frame (Ent V)) with
+          | none => rw [hb] at hff; simp at hff
+          | some z =>
+          obtain ⟨fs0, d0⟩ := z
+          rw [hb] at hff
+          simp only [Option.map_some, Option.some.injEq, Prod.mk.injEq] at hff
+          obtain ⟨rfl, rfl⟩ := hff
+          rw [fixUpD_false] at hr
+          simp only [Option.some.injEq, Prod.mk.injEq] at hr
+          obtain ⟨rfl, rfl⟩ := hr
+          have hd0 : d0 = false := fixBlackSib_red_parent hb rfl
+          subst hd0
+          obtain ⟨a1, h1, hc1, hn1, hu1, hcap1, hd1, hs1⟩ := handleRedSibling_R hsize hs hsib hc hn hnl hnd
+          have hsize1 : a1.nodes.size ≤ EMPTY := by rw [hs1]; exact hsize
+          have hnd1 : (tN.slots ++ ctxSlots ((⟨.red, f.s, f.e, SR, .R⟩ : Frame (Ent V)) :: ⟨.black, s, se, SL, .R⟩ :: K)).Nodup := by
+            rw [show ctxSlots (f :: K) = f.s :: ((T.node .red SL s se SR).slots ++ ctxSlots K) by simp [ctxSlots, hsib]] at hnd
+            slots_tac hnd
+          obtain ⟨s1, _, _, _, _, _, hgs1, hS1, _, _⟩ :=
+            getSibling_rep (f := ⟨.red, f.s, f.e, SR, .R⟩) hsize1 hc1 hn1 hnl hnd1
+          cases hSR : SR with
+          | leaf => simp [fixBlackSib, hSR] at hb
+          | node cS1 SL1 s1' se1 SR1 =>
+          subst hSR
+          have hs1' : s1 = s1' := hS1.1
+          subst hs1'
+          obtain ⟨a', h2, hc2, hn2, hu2, hcap2, hd2, hs2⟩ :=
+            fixTail_rep (f := ⟨.red, f.s, f.e, _, .R⟩) ih hsize1 (fun h => by cases h) rfl hc1 hn1 hnl hnd1 hb
+              (fixUpD_false _)
+          refine ⟨a', ?_, by simpa using hc2, hn2, by rw [hu2, hu1], by rw [hcap2, hcap1], by rw [hd2, hd1], by rw [hs2, hs1]⟩
+          simp only [h1, Option.bind_some, hgs1]
+          exact h2
+
+end ITree
